@@ -62,6 +62,8 @@ def _build_dt(c):
         return x0 + bt.TimeDelta.from_ticks(c["delta"])
     if via == "tuple":
         return bt.DateTime.from_tuple(bt.TimeValueTuple(c["t"] >> 64, c["t"] & (T64 - 1)))
+    if via == "now":          # the clock reading: whatever it is, text and fields must describe x.ticks
+        return bt.DateTime.now(UTC)
     raise AssertionError(via)
 
 
@@ -226,6 +228,8 @@ def gen_cases(rng, tier):
                 cases.append({"k": obs, "via": "add", "t": t, "delta": delta})
         elif m == 3:
             cases.append({"k": obs, "via": "tuple", "t": t})
+    for _ in range(90 if not big else 600):
+        cases.append({"k": rng.choice(["dt_fields", "dt_str", "dt_str", "dt_repr"]), "via": "now", "warm": rng.random() < 0.5})
     for _ in range(400 if not big else 10000):
         y = rng.choice([1, 1903, 1904, 2000, 2024, 9999, rng.randrange(1, 10000)])
         mo = rng.randrange(1, 13)
